@@ -608,7 +608,7 @@ func (e *Engine) iterNext(st *State, it IterRef, in *ssa.Next) Value {
 	}
 	w := st.objW(it.Obj)
 	w.IterIdx = idx
-	return Tuple{term.False, zeroValue(tu.At(1).Type()), zeroValue(tu.At(2).Type())}
+	return Tuple{term.False, zeroOrDummy(tu.At(1).Type()), zeroOrDummy(tu.At(2).Type())}
 }
 
 func decodeRune(s string) (rune, int) {
@@ -789,4 +789,12 @@ func (e *Engine) doRecover(st *State, th *Thread) Value {
 		}
 	}
 	return Iface{}
+}
+
+// zeroOrDummy: go/ssa gives unused range components the invalid type.
+func zeroOrDummy(t types.Type) Value {
+	if b, ok := t.(*types.Basic); ok && b.Kind() == types.Invalid {
+		return term.False
+	}
+	return zeroValue(t)
 }
